@@ -33,6 +33,27 @@ Definition judge_findroute (args : list bytes) : list bytes :=
   | None => decode_error
   end.
 
+(* ---- findroute-seq: n (proto dest nexthop)*n  m host*m : the hosts are looked up one after the other on ONE
+        table object; the observation is m answers.  In the model a look-up is a function of table and host, so an
+        answer that depends on the look-ups before it is a disagreement (and the judge rejects it). ---- *)
+Definition run_findroute_seq (args : list bytes) : list bytes :=
+  match run_dec (d_pair d_route_cfg (d_list d_bytes)) args with
+  | Some (cfg, hosts) =>
+      let t := build_table cfg in
+      e_nat (List.length hosts) :: flat_map (fun h => e_route_result (find_route t h)) hosts
+  | None => decode_error
+  end.
+Definition judge_findroute_seq (args : list bytes) : list bytes :=
+  match run_dec (d_pair (d_pair d_route_cfg (d_list d_bytes)) (d_list d_answer)) args with
+  | Some ((cfg, hosts), obs) =>
+      let ha := combine hosts obs in
+      ok_tok (Nat.eqb (List.length hosts) (List.length obs) &&
+              forallb (fun '(h, a) => judge_C18 cfg h [a]) ha &&
+              (* the same host gets the same answer every time, whatever was looked up in between *)
+              forallb (fun '(h, a) => forallb (fun '(h', a') => if beq h h' then c18_opt_eqb a a' else true) ha) ha)
+  | None => decode_error
+  end.
+
 (* ---- rr: nops {op arg}..   op = add|remove|dispatch ---- *)
 Definition d_rr_op : dec rr_op :=
   dlet o := d_bytes in dlet a := d_bytes in
@@ -166,6 +187,7 @@ Definition run_dialog (args : list bytes) : list bytes :=
 
 Definition run (comp : bytes) (args : list bytes) : list bytes :=
   if beq comp (s2b "findroute") then run_findroute args
+  else if beq comp (s2b "findroute-seq") then run_findroute_seq args
   else if beq comp (s2b "rr") then run_rr args
   else if beq comp (s2b "pins") then run_pins args
   else if beq comp (s2b "resolver") then run_resolver args
@@ -277,6 +299,7 @@ Definition judge_sendfault (args : list bytes) : list bytes :=
 
 Definition judge (comp : bytes) (args : list bytes) : list bytes :=
   if beq comp (s2b "findroute") then judge_findroute args
+  else if beq comp (s2b "findroute-seq") then judge_findroute_seq args
   else if beq comp (s2b "codec") then judge_codec args
   else if beq comp (s2b "dialog") then judge_dialog args
   else if beq comp (s2b "rr") then judge_rr args
